@@ -252,6 +252,55 @@ def _same_pos(a, b) -> bool:
     return (getattr(a, "lineno", None), getattr(a, "col_offset", None)) == (getattr(b, "lineno", None), getattr(b, "col_offset", None))
 
 
+def _returns_to_chain(body: List[ast.stmt], make_assign) -> Optional[List[ast.stmt]]:
+    """body = [s..., if t1: ...; return a, if t2: ...; return b, ..., return z | raise]  ->  the same computation
+    with every `return v` replaced by make_assign(v) and the early exits turned into an if/elif/else chain.
+    None when a return sits anywhere else (in a loop, in a nested branch that falls through, in a try)."""
+    def no_return(stmts) -> bool:
+        return not any(isinstance(n, ast.Return) for s_ in stmts for n in ast.walk(s_) if not _inside_nested_def(s_, n))
+
+    def go(stmts: List[ast.stmt]) -> Optional[List[ast.stmt]]:
+        out: List[ast.stmt] = []
+        for i, s_ in enumerate(stmts):
+            if isinstance(s_, ast.Return):
+                if i != len(stmts) - 1:
+                    return None
+                return out + (make_assign(s_.value) if s_.value is not None else make_assign(ast.Constant(value=None)))
+            if isinstance(s_, ast.Raise) and i == len(stmts) - 1:
+                return out + [s_]
+            if isinstance(s_, ast.If) and not no_return([s_]):
+                b = go(s_.body)
+                if b is None:
+                    return None
+                if s_.orelse:
+                    o = go(s_.orelse)
+                    if o is None:
+                        return None
+                    rest_needed = not (_ends(b) and _ends(o))
+                    new_if = ast.If(test=s_.test, body=b, orelse=o)
+                    if rest_needed:
+                        return None
+                    return out + [new_if]
+                if not _ends_in_exit(s_.body):
+                    return None
+                rest = go(stmts[i + 1 :])
+                if rest is None:
+                    return None
+                return out + [ast.If(test=s_.test, body=b, orelse=rest)]
+            if not no_return([s_]):
+                return None
+            out.append(s_)
+        return out
+
+    def _ends(stmts) -> bool:
+        return bool(stmts)
+
+    def _ends_in_exit(stmts) -> bool:
+        return bool(stmts) and isinstance(stmts[-1], (ast.Return, ast.Raise))
+
+    return go(body)
+
+
 def _split_parallel(target, value) -> List[ast.stmt]:
     """`a, b, c = x, b, c`  ->  `a = x` (self-assignments dropped) when the parallel assignment can be done in
     sequence: no right-hand side reads a target assigned before it"""
@@ -428,15 +477,49 @@ class ModuleNormalizer:
                         i += 1
                         continue
                     hbody = _docless(h.body)
+                    as_continue = False
                     if kind != "return" and _has_inner_return(hbody):
-                        # an expression helper can still be inlined as an expression
-                        i += 1
-                        continue
+                        # the call is the last statement of a loop body and the helper returns nothing: its
+                        # `return`s are `continue`s there
+                        bare = all(r.value is None or (isinstance(r.value, ast.Constant) and r.value.value is None) for r in ast.walk(ast.Module(body=hbody, type_ignores=[])) if isinstance(r, ast.Return))
+                        loops_inside = any(isinstance(n, (ast.For, ast.While)) and any(isinstance(r, ast.Return) for r in ast.walk(n)) for b_ in hbody for n in ast.walk(b_))
+                        if kind == "expr" and isinstance(parent, (ast.For, ast.While)) and field == "body" and i == len(stmts) - 1 and bare and not loops_inside:
+                            as_continue = True
+                        elif kind == "assign":
+                            res0 = _stmt_inline(h, mp, caller_names, s)
+                            chain = _returns_to_chain(res0[1], lambda v, _t=s.targets: [ast.Assign(targets=copy.deepcopy(_t), value=v)]) if res0 is not None else None
+                            if chain is None:
+                                i += 1
+                                continue
+                            new = list(res0[0]) + chain
+                            for x in new:
+                                _relocate(x, s)
+                            stmts[i : i + 1] = new
+                            self.log.append(f"{q}: inlined new helper {h.name} at an assign statement (early returns as an if/else chain)")
+                            caller_names |= _names_stored(ast.Module(body=new, type_ignores=[]))
+                            changed = True
+                            i += len(new)
+                            continue
+                        else:
+                            i += 1
+                            continue
                     res = _stmt_inline(h, mp, caller_names, s)
                     if res is None:
                         i += 1
                         continue
                     pro, body = res
+                    if as_continue:
+                        class R2C(ast.NodeTransformer):
+                            def visit_Return(self, n):
+                                return ast.copy_location(ast.Continue(), n)
+
+                            def visit_FunctionDef(self, n):
+                                return n
+
+                            def visit_Lambda(self, n):
+                                return n
+
+                        body = [R2C().visit(b_) for b_ in body]
                     new: List[ast.stmt] = list(pro)
                     if kind == "return":
                         new += body
